@@ -224,6 +224,9 @@ def run(ctx):
     mism = []       # (group, case index)
     for g in groups:
         for j, (a, b) in enumerate(zip(g.impl, g.model)):
+            if a == "HANG" and b != "HANG" and ctx.prop != "C06":
+                ctx.hist["watchdog_fired_model_terminates"] += 1     # slowness or a hang: C06 decides (after a 90 s retry)
+                continue
             if a != b and g.cases[j].api != "history":
                 mism.append((g, j))
         if g.meta.get("l2"):
@@ -1467,6 +1470,10 @@ def c08_oracle(ctx, g):
     for k in range(h):
         a, b = g.impl[k], g.impl[h + k]
         ctx.hist[g.cases[k].api + ":" + a[:3]] += 1
+        if (a == "HANG" and g.model[k] != "HANG") or (b == "HANG" and g.model[h + k] != "HANG"):
+            # the watchdog fired but the model finishes: catastrophic backtracking (wall clock), not non-termination
+            ctx.hist["slow_not_compared"] += 1
+            continue
         if a != b:
             c = g.cases[k]
             out.append(f"{c.api}({c.pattern!r}, flags {c.flags!r}, {c.input!r}): optimised {a[:80]!r}, with all optimisations off {b[:80]!r}")
